@@ -21,8 +21,9 @@ Inductive op :=
 | Drop (o : obj)                             (* del o; gc.collect()   *)
 | Sweep                                      (* SymbolGraph().remove_dead_instances() *)
 | QueryG (T : cls)                           (* sweep; list(SymbolGraph().get_instances_of_type(T)) *)
-| QueryE (T : cls)                           (* q = an(entity(let(T, None))); list(q.evaluate()) *)
-| ReEval (k : nat)                           (* list(q_k.evaluate()) for the k-th query object made by QueryE *)
+| QueryE (T : cls)                           (* q = an(entity(let(T, None))); list(q.evaluate())   -- declared and evaluated at once *)
+| DeclV (T : cls)                            (* q = an(entity(let(T, None)))       -- declared only; becomes query object k *)
+| EvalV (k : nat)                            (* list(q_k.evaluate()) for the k-th query object made by QueryE / DeclV *)
 | Relate (a : obj) (f : fld) (b : obj) (ia ib : idx)
                                              (* PredicateClassRelation(a, b, f).add_to_graph(); ia/ib: node index
                                                 observed if a / b had to be wrapped anew *)
@@ -87,7 +88,9 @@ Section SpecStep.
     | Sweep => (a, ONone)
     | QueryG T => (a, OInst (map Some (spec_query (a_live a) T)))
     | QueryE T => (AS (a_live a) (a_rels a) (a_vars a ++ [T]) (a_next a), OInst (map Some (spec_query (a_live a) T)))
-    | ReEval k =>
+    | DeclV T => (AS (a_live a) (a_rels a) (a_vars a ++ [T]) (a_next a), ONone)    (* a declared variable holds nothing *)
+    | EvalV k =>
+        (* the range is decided when the query is evaluated, every time *)
         match nth_error (a_vars a) k with
         | Some T => (a, OInst (map Some (spec_query (a_live a) T)))
         | None => (a, OErr)
